@@ -292,6 +292,29 @@ def run(ctx, impl_only=False):
                     ctx.count('out_of_universe')
             if len(ctx.samples) < 5 and want_v:
                 ctx.sample({'obj': repr(obj)[:120], 'item': repr(it), 'hits': len(want_v) + len(want_p)})
+    # ---- exclude_types names a base type, the object holds instances of its subclasses (bool under int, OrderedDict under dict, a str subclass)
+    import collections
+    class Tag(str):
+        pass
+    sub_objs = [{'a': True, 'b': 1, 'c': [False, 2, 'x']}, {'o': collections.OrderedDict([('k', 1), ('j', 'one')]), 'p': {'k': 1, 'j': 'one'}},
+                [Tag('one'), 'one', {'t': Tag('one')}], (True, 1, 1.0, 'True')]
+    for o in sub_objs:
+        for it in (1, True, '1', 'one', 'k', 'True'):
+            for ex in ([int], [dict], [bool], [str], [int, str], [float]):
+                for (cs, strict) in ((True, True), (False, False)):
+                    ctx.evaluations += 1
+                    case = {'obj': repr(o), 'item': repr(it), 'case_sensitive': cs, 'match_string': False, 'use_regexp': False, 'strict_checking': strict,
+                            'exclude_paths': [], 'exclude_types': [t.__name__ for t in ex], 'exclude_regex_paths': [], 'verbose_level': 2}
+                    try:
+                        ds = DeepSearch(o, it, verbose_level=2, case_sensitive=cs, strict_checking=strict, exclude_types=ex)
+                    except Exception as e:
+                        ctx.violate(case, 'DeepSearch raised %s: %s' % (type(e).__name__, str(e)[:80])); continue
+                    want_v, want_p = reference(o, it, cs, False, False, strict, (), ex, ())
+                    got = (sorted(ds.get('matched_values', {})), sorted(ds.get('matched_paths', {})))
+                    want = (sorted(want_v), sorted(want_p))
+                    ctx.count('subclass_exclusion')
+                    if got != want:
+                        ctx.violate(case, 'result differs from the reference search under exclude_types=%s: got %r, expected %r' % ([t.__name__ for t in ex], got, want))
     # regular expression with a non-string item: TypeError by design
     ctx.evaluations += 1
     try:
